@@ -6,6 +6,7 @@ import MimicProofs.PacketsCode
 import Mimic.Extracted.Handlers
 import Mimic.Extracted.Protocol
 import MimicProofs.HandlersCode
+import MimicProofs.CommandLoop
 /-!
 # C03 — Every command gets exactly one complete, well-formed response (lockstep)
 
@@ -625,6 +626,63 @@ theorem code_query_exchange (E : Mimic.Py.Env S) (cp : S → Nat) (pc : Nat → 
         = if rs.rows.boom then sent ++ [Ev.write e true, Ev.reset_seq]
           else sent ++ [Ev.write (ok_or_eof c rs.rows.rows.length l w2 fl) false, Ev.drain, Ev.reset_seq] :=
   query_command_response E cp pc coldef parse app ur fls fcd other err c payload q rs hp ha hne
+
+/-! ### the command loop itself (`command_loop`: the `while True` of `command_phase`, generated), for every conversation -/
+
+open MimicProofs.CommandLoop in
+/-- **The command phase ends by COM_QUIT iff the client sent one.**  For every list of packets — of any length, malformed,
+    empty and unsupported ones included — and every behaviour of parsers, application and untranslated handlers: the loop
+    returns because of a packet iff some packet's first byte is 1; no failure, no ERR and no other command ends it ("and then
+    waits for the next command"). -/
+theorem code_loop_ends_only_by_quit (E : Mimic.Py.Env S) (cp : S → Nat) (pc : Nat → Mimic.Py.Bytes) (coldef : Nat → Nat → Mimic.Py.Bytes)
+    (parse : Connection S → Mimic.Py.Bytes → Option (ComStmtExecute S)) (app : S → Option (ResultSet S))
+    (ur : S → Bool) (fls : Mimic.Extracted.ParsersCode.ComFieldList S → S) (fcd : Nat → S → Mimic.Py.Bytes → Mimic.Py.Bytes)
+    (other : Nat → Connection S → Mimic.Py.Bytes → Except (Connection S) (Connection S)) (err : Connection S → Mimic.Py.Bytes)
+    (c : Connection S) (ps : List Mimic.Py.Bytes) :
+    (command_loop E cp pc coldef parse app ur fls fcd other err c ps).2 = true ↔ ∃ p ∈ ps, isQuit p = true :=
+  loop_quit_iff E cp pc coldef parse app ur fls fcd other err c ps
+
+open MimicProofs.CommandLoop in
+/-- **nothing behind a COM_QUIT is looked at**: packets pipelined after it change neither the state nor the wire -/
+theorem code_loop_ignores_after_quit (E : Mimic.Py.Env S) (cp : S → Nat) (pc : Nat → Mimic.Py.Bytes) (coldef : Nat → Nat → Mimic.Py.Bytes)
+    (parse : Connection S → Mimic.Py.Bytes → Option (ComStmtExecute S)) (app : S → Option (ResultSet S))
+    (ur : S → Bool) (fls : Mimic.Extracted.ParsersCode.ComFieldList S → S) (fcd : Nat → S → Mimic.Py.Bytes → Mimic.Py.Bytes)
+    (other : Nat → Connection S → Mimic.Py.Bytes → Except (Connection S) (Connection S)) (err : Connection S → Mimic.Py.Bytes)
+    (c : Connection S) (pre post : List Mimic.Py.Bytes) (q : Mimic.Py.Bytes) (hq : isQuit q = true) :
+    command_loop E cp pc coldef parse app ur fls fcd other err c (pre ++ q :: post) = command_loop E cp pc coldef parse app ur fls fcd other err c (pre ++ [q]) :=
+  loop_ignores_after_quit E cp pc coldef parse app ur fls fcd other err c pre post q hq
+
+open MimicProofs.CommandLoop in
+/-- **after every command the sequence is reset and the executing flag cleared** — after one iteration on any packet, and
+    after any non-empty conversation: the last effect is `reset_seq`, so the next command's response counts up from the
+    command's own number whatever became of this one -/
+theorem code_every_command_resets_sequence (E : Mimic.Py.Env S) (cp : S → Nat) (pc : Nat → Mimic.Py.Bytes) (coldef : Nat → Nat → Mimic.Py.Bytes)
+    (parse : Connection S → Mimic.Py.Bytes → Option (ComStmtExecute S)) (app : S → Option (ResultSet S))
+    (ur : S → Bool) (fls : Mimic.Extracted.ParsersCode.ComFieldList S → S) (fcd : Nat → S → Mimic.Py.Bytes → Mimic.Py.Bytes)
+    (other : Nat → Connection S → Mimic.Py.Bytes → Except (Connection S) (Connection S)) (err : Connection S → Mimic.Py.Bytes)
+    (c : Connection S) :
+    (∀ data : Mimic.Py.Bytes, (command_step E cp pc coldef parse app ur fls fcd other err c data).1._executing = false ∧
+        ∃ pre, (command_step E cp pc coldef parse app ur fls fcd other err c data).1.out = pre ++ [Ev.reset_seq]) ∧
+    (∀ ps : List Mimic.Py.Bytes, ps ≠ [] → (command_loop E cp pc coldef parse app ur fls fcd other err c ps).1._executing = false ∧
+        ∃ pre, (command_loop E cp pc coldef parse app ur fls fcd other err c ps).1.out = pre ++ [Ev.reset_seq]) :=
+  ⟨fun data => step_clears_and_resets E cp pc coldef parse app ur fls fcd other err c data, fun ps h => loop_clears_and_resets E cp pc coldef parse app ur fls fcd other err c ps h⟩
+
+open MimicProofs.CommandLoop in
+/-- **conversations compose**: serving `ps ++ qs` is serving `ps` and then — unless `ps` contained a COM_QUIT — serving `qs`
+    from the state `ps` left; what a command gets depends on the commands before it only through that state -/
+theorem code_loop_composes (E : Mimic.Py.Env S) (cp : S → Nat) (pc : Nat → Mimic.Py.Bytes) (coldef : Nat → Nat → Mimic.Py.Bytes)
+    (parse : Connection S → Mimic.Py.Bytes → Option (ComStmtExecute S)) (app : S → Option (ResultSet S))
+    (ur : S → Bool) (fls : Mimic.Extracted.ParsersCode.ComFieldList S → S) (fcd : Nat → S → Mimic.Py.Bytes → Mimic.Py.Bytes)
+    (other : Nat → Connection S → Mimic.Py.Bytes → Except (Connection S) (Connection S)) (err : Connection S → Mimic.Py.Bytes)
+    (c : Connection S) (ps qs : List Mimic.Py.Bytes) :
+    command_loop E cp pc coldef parse app ur fls fcd other err c (ps ++ qs)
+      = if (command_loop E cp pc coldef parse app ur fls fcd other err c ps).2 then command_loop E cp pc coldef parse app ur fls fcd other err c ps
+        else command_loop E cp pc coldef parse app ur fls fcd other err (command_loop E cp pc coldef parse app ur fls fcd other err c ps).1 qs :=
+  loop_append E cp pc coldef parse app ur fls fcd other err c ps qs
+
+/-- non-vacuity: a conversation of an empty packet, an unsupported byte and a COM_QUIT followed by a pipelined ping -/
+example : MimicProofs.CommandLoop.served [[], [0x63], [1], [14]] = [[], [0x63], [1]] := by decide
+
 
 /-- the command bytes the code dispatches are the ones the machine's command set names (extracted order of the if / elif chain) -/
 theorem dispatched_codes : dispatched = [3, 22, 24, 23, 28, 26, 25, 14, 17, 31, 13, 1, 2, 4] := by decide
